@@ -583,7 +583,7 @@ impl Size {
     /// Check if size is zero in any dimension
     #[inline]
     pub fn is_empty(&self) -> bool {
-        self.height * self.width == 0
+        self.height == 0 || self.width == 0
     }
 
     /// Get size area
